@@ -184,6 +184,26 @@ Proof.
   split; [rewrite E; lra|]. apply perm_swap.
 Qed.
 
+(* ---- the correspondence check evaluates the SAME generic model at exact rationals (numQ, normalised);
+   mapped to the reals with Q2R this evaluation is the real-number model of the theorems above ---- *)
+From Coq Require Import QArith Qreals.
+From MiniMcmc Require Import Proofs.Q2R.
+
+Theorem C12_q_evaluation_is_real_model : forall (hs : list (list Q)) (n : nat),
+  (2 <= length hs)%nat -> (1 <= n)%nat -> (forall h, In h hs -> length h = n) ->
+  ~ (snd (withinvar numQ hs) == 0)%Q ->
+  Q2R (ess_tau numQ hs) = ess_tau numR (map (map Q2R) hs).
+Proof. exact q2r_ess_tau. Qed.
+
+Theorem C12_q_autocov_is_real : forall xs : list Q, xs <> [] ->
+  map Q2R (autocov numQ xs) = autocov numR (map Q2R xs).
+Proof. exact q2r_autocov. Qed.
+
+(* Geyer's truncation takes the same branches over Q and over R *)
+Theorem C12_q_geyer_is_real : forall (fuel : nat) (rho : list Q) (mn out : Q),
+  Q2R (geyer numQ fuel rho mn out) = geyer numR fuel (map Q2R rho) (Q2R mn) (Q2R out).
+Proof. exact q2r_geyer. Qed.
+
 Print Assumptions C12_fft_is_bf.
 Print Assumptions C12_fft_is_bf_list.
 Print Assumptions C12_tau_fft_is_bf.
@@ -204,3 +224,6 @@ Print Assumptions C12_affine_autocov.
 Print Assumptions C12_affine_withinvar.
 Print Assumptions C12_affine.
 Print Assumptions C12_perm.
+Print Assumptions C12_q_evaluation_is_real_model.
+Print Assumptions C12_q_autocov_is_real.
+Print Assumptions C12_q_geyer_is_real.
